@@ -13,7 +13,15 @@ pub const NOW_N: i64 = 500_000_000;
 
 /// Build a Tracking by deserialising a crafted reply packet (the only public way to put
 /// arbitrary wire words into the private ChronyFloat fields).
+/// Every crafted report gets different values in the fields no property lets the daemon depend on
+/// (stratum, source address, last/RMS offset, frequency, residual frequency, skew): a chrony float
+/// word taken from a small table, the stratum cycling through 1, 2, 3, 10, 15, 0.
+static VARIANT: std::sync::atomic::AtomicU32 = std::sync::atomic::AtomicU32::new(0);
+const FILL: [u32; 6] = [0, 0x0180_0000, 0xF27F_FFFF, 0x0A12_3456, 0xFE80_0001, 0x7FFF_FFFF];
+
 pub fn mk_tracking(ref_id: u32, leap: u16, ref_s: i64, ref_n: u32, corr: u32, delay: u32, disp: u32, interval: u32) -> Tracking {
+    let v = VARIANT.fetch_add(1, std::sync::atomic::Ordering::SeqCst) as usize;
+    let fill = |k: usize| FILL[(v + k) % FILL.len()];
     let mut b: Vec<u8> = Vec::with_capacity(128);
     b.put_u8(6);
     b.put_u8(2);
@@ -30,20 +38,20 @@ pub fn mk_tracking(ref_id: u32, leap: u16, ref_s: i64, ref_n: u32, corr: u32, de
     b.put_u32(0);
     // body
     b.put_u32(ref_id);
-    b.put_slice(&[0u8; 16]); // address bytes
+    b.put_slice(&[(v % 251) as u8; 16]); // address bytes
     b.put_u16(0); // family: unspec
     b.put_u16(0); // padding
-    b.put_u16(1); // stratum
+    b.put_u16([1u16, 2, 3, 10, 15, 0][v % 6]); // stratum
     b.put_u16(leap);
     b.put_i32((ref_s >> 32) as i32);
     b.put_u32((ref_s & 0xffff_ffff) as u32);
     b.put_u32(ref_n);
     b.put_u32(corr); // current_correction
-    b.put_u32(0); // last_offset
-    b.put_u32(0); // rms_offset
-    b.put_u32(0); // freq_ppm
-    b.put_u32(0); // resid_freq_ppm
-    b.put_u32(0); // skew_ppm
+    b.put_u32(fill(0)); // last_offset
+    b.put_u32(fill(1)); // rms_offset
+    b.put_u32(fill(2)); // freq_ppm
+    b.put_u32(fill(3)); // resid_freq_ppm
+    b.put_u32(fill(4)); // skew_ppm
     b.put_u32(delay); // root_delay
     b.put_u32(disp); // root_dispersion
     b.put_u32(interval); // last_update_interval
